@@ -248,6 +248,17 @@ def init(ctx, flavours, fams=BUILDERS, which=None):
             # the kernel receives self and fresh collections
             if strip_payload(pv.of_operand(t['args'][0])) != ('param', 1):
                 why.append('kernel not invoked on self')
+            for role, idx in (('visited set', K.vis), ('frontier', K.front), ('edge list', K.result)):
+                if not idx:
+                    continue
+                src = strip_payload(pv.of_operand(t['args'][idx - 1]))
+                fresh = isinstance(src, tuple) and src[0] == 'call' and src[1].split('::')[-1].rstrip('>') in ('new', 'default', 'with_capacity') and not src[2][:0]
+                fresh = fresh or (isinstance(src, tuple) and src[0] == 'call' and src[1].endswith('into_vec'))   # vec![] literal
+                if not fresh:
+                    # state carried over from an earlier call is acceptable only when it is emptied first
+                    cleared = [cb for cb, ct in calls_in(b, lambda x: callee_name(x).split('::')[-1] == 'clear') if strip_payload(pv.of_operand(ct['args'][0])) == src and cfg.dominates(cb, bi)]
+                    if not cleared:
+                        why.append('the %s handed to the kernel is not fresh (%s) and is not cleared first: state of an earlier search leaks into this one' % (role, pretty(src)))
             out.append(Obl(rule, b['q'], F.where(b, bi), '%s -> %s' % (inst, K.name), not why, '; '.join(why) if why else 'ok'))
         if is_cycle:
             # target := Some(clone(key(root)))
